@@ -406,8 +406,8 @@ def m_sigmask(errpos):
             how = args[0]
             s.mon["sigmask"] = newv if how == fs(I.abs_int(2)) else fs(("sym", "UNKNOWN"))
         fail = I.pos() if errpos else fs(-1)
-        if newv == fs(("sym", "ORIG")):
-            # C12 excludes a failure of the restoring call itself
+        if newv == fs(("sym", "ORIG")) and not getattr(I, "restore_may_fail", False):
+            # C12 excludes a failure of the restoring call itself (C04.E4m turns it on: fault sequences include it)
             return [(s, fs(0))]
         return [(failed(st, fn, n), fail), (s, fs(0))]
     return m
